@@ -22,7 +22,7 @@ def conf_case(rnd):
     tabs = [{x: rnd.randint(0, rnd.choice([1, 2])) for x in range(1, n + 1)} for _ in range(nl)]
     perm = list(range(1, n + 1))
     rnd.shuffle(perm)
-    return dict(directed=False, removal=True, hist=hist, family=rnd.choice(['int', 'str', 'us', 'sp']), functional=False, n=n,
+    return dict(directed=False, removal=True, hist=hist, family=rnd.choice(['int', 'digits', 'str', 'us', 'sp']), functional=False, n=n,
                 tabs=[{str(k): v for k, v in t.items()} for t in tabs], perm=perm,
                 start=(0 if rich else rnd.randint(-1, T)), delta=(T if rich else rnd.randint(0, 4)), ptype=rnd.choice(PTYPES), psize=rnd.randint(1, nl),
                 alphas=rnd.choice([[1], [2], [1, 3]]), sdelta=rnd.randint(0, 3))
